@@ -166,6 +166,16 @@ theorem ceil_intCast' (z : Int) : ((z : Rat)).ceil = z := by
   · rw [Rat.ceil_le_iff]
   · have := @Rat.le_ceil (z : Rat); exact_mod_cast this
 
+theorem aff_ext_of_apply {A B : Aff} (h : ∀ p : Pt, A.apply p = B.apply p) : A = B := by
+  have h0 := h (0, 0); have h1 := h (1, 0); have h2 := h (0, 1)
+  simp only [Aff.apply, Prod.mk.injEq] at h0 h1 h2
+  obtain ⟨a, b, c, d, e, f⟩ := A
+  obtain ⟨a', b', c', d', e', f'⟩ := B
+  simp only at h0 h1 h2
+  simp only [Aff.mk.injEq]
+  refine ⟨by linarith [h0.1, h1.1], by linarith [h0.1, h2.1], by linarith [h0.1], by linarith [h0.2, h1.2],
+    by linarith [h0.2, h2.2], by linarith [h0.2]⟩
+
 theorem rabs_eq_abs (x : Rat) : rabs x = |x| := by
   unfold rabs
   split
